@@ -44,3 +44,27 @@
 (declare-fun sdiv (Int Int) Int)
 ; smod: Go's remainder as an opaque function (definition supplied at ground terms: lemma smod_def)
 (declare-fun smod (Int Int) Int)
+; ---- C10: scalar float helpers used by the generic-element clauses
+(define-fun fone32 () (_ FloatingPoint 8 24) ((_ to_fp 8 24) RNE 1.0))
+(define-fun fone64 () (_ FloatingPoint 11 53) ((_ to_fp 11 53) RNE 1.0))
+(define-fun fzero32 () (_ FloatingPoint 8 24) ((_ to_fp 8 24) RNE 0.0))
+(define-fun fzero64 () (_ FloatingPoint 11 53) ((_ to_fp 11 53) RNE 0.0))
+(define-fun fabs32 ((x (_ FloatingPoint 8 24))) (_ FloatingPoint 8 24) (fp.abs x))
+(define-fun fabs64 ((x (_ FloatingPoint 11 53))) (_ FloatingPoint 11 53) (fp.abs x))
+(define-fun fneg32 ((x (_ FloatingPoint 8 24))) (_ FloatingPoint 8 24) (fp.neg x))
+(define-fun fneg64 ((x (_ FloatingPoint 11 53))) (_ FloatingPoint 11 53) (fp.neg x))
+; relu_is(x, r): r is max(0, x) as IEEE-754 prescribes: NaN stays NaN, otherwise x if x > 0 else a zero
+(define-fun relu_is32 ((x (_ FloatingPoint 8 24)) (r (_ FloatingPoint 8 24))) Bool
+  (ite (fp.isNaN x) (fp.isNaN r) (fp.eq r (ite (fp.gt x fzero32) x fzero32))))
+(define-fun relu_is64 ((x (_ FloatingPoint 11 53)) (r (_ FloatingPoint 11 53))) Bool
+  (ite (fp.isNaN x) (fp.isNaN r) (fp.eq r (ite (fp.gt x fzero64) x fzero64))))
+; IEEE arithmetic (round to nearest even), kept opaque: equal results are known only for equal
+; operations on equal operands (see gvc/instr.go fpArith)
+(declare-fun fadd32 ((_ FloatingPoint 8 24) (_ FloatingPoint 8 24)) (_ FloatingPoint 8 24))
+(declare-fun fsub32 ((_ FloatingPoint 8 24) (_ FloatingPoint 8 24)) (_ FloatingPoint 8 24))
+(declare-fun fmul32 ((_ FloatingPoint 8 24) (_ FloatingPoint 8 24)) (_ FloatingPoint 8 24))
+(declare-fun fdiv32 ((_ FloatingPoint 8 24) (_ FloatingPoint 8 24)) (_ FloatingPoint 8 24))
+(declare-fun fadd64 ((_ FloatingPoint 11 53) (_ FloatingPoint 11 53)) (_ FloatingPoint 11 53))
+(declare-fun fsub64 ((_ FloatingPoint 11 53) (_ FloatingPoint 11 53)) (_ FloatingPoint 11 53))
+(declare-fun fmul64 ((_ FloatingPoint 11 53) (_ FloatingPoint 11 53)) (_ FloatingPoint 11 53))
+(declare-fun fdiv64 ((_ FloatingPoint 11 53) (_ FloatingPoint 11 53)) (_ FloatingPoint 11 53))
